@@ -204,10 +204,10 @@ func runProperty(repo, verif, cmd, id, tier string, verbose bool, filter string,
 		}
 	}
 	tGen := time.Since(t0).Seconds() - tLoad
-	timeoutS := 10
+	timeoutS := 30
 	all := false
 	if tier == "thorough" {
-		timeoutS = 60
+		timeoutS = 120
 		all = true
 	}
 	if timeoutFlag > 0 {
